@@ -64,11 +64,13 @@ pub struct JobStats {
     pub max_alloc_len: u64,
     /// first accepted (class != 0) input, as a sample
     pub sample_ok: Option<(u32, Vec<u8>)>,
+    pub wall_ms: u64,
 }
 
 impl JobStats {
     pub fn merge(&mut self, o: &JobStats) {
         self.evals += o.evals;
+        self.wall_ms += o.wall_ms;
         for (k, v) in &o.classes {
             *self.classes.entry(*k).or_default() += v;
         }
@@ -127,7 +129,7 @@ impl JobStats {
     }
     pub fn to_json(&self) -> Value {
         json!({
-            "evals": self.evals,
+            "evals": self.evals, "wall_ms": self.wall_ms,
             "classes": self.classes.iter().map(|(k, v)| json!([k, v])).collect::<Vec<_>>(),
             "panics": Self::pmap_json(&self.panics),
             "task_panics": Self::pmap_json(&self.task_panics),
@@ -147,6 +149,7 @@ impl JobStats {
         s.task_panics = Self::pmap_from(&v["task_panics"]);
         s.alloc = Self::agg_from(&v["alloc"]);
         s.time = Self::agg_from(&v["time"]);
+        s.wall_ms = v["wall_ms"].as_u64().unwrap_or(0);
         s.slowest_ns = v["slowest_ns"].as_u64().unwrap_or(0);
         s.slowest_len = v["slowest_len"].as_u64().unwrap_or(0);
         s.max_alloc = v["max_alloc"].as_u64().unwrap_or(0);
@@ -206,6 +209,15 @@ pub fn eval_into(e: &Entry, input: &[u8], st: &mut JobStats) -> Meas {
         }
         if m.ns > TIME_LIMIT_NS {
             st.time.offer(input, m.ns);
+        }
+    }
+    if m.ns > 2_000_000 && m.ns <= TIME_LIMIT_NS && m.ns > st.slowest_ns {
+        // a candidate for "slowest call": confirm, the first measurement may be scheduler noise
+        for _ in 0..2 {
+            let m2 = oracle::measure(e.run, input);
+            if m2.panic.is_none() && m2.ns < m.ns {
+                m.ns = m2.ns;
+            }
         }
     }
     if m.ns > st.slowest_ns {
@@ -324,7 +336,9 @@ pub fn child_main(entries: &[Entry], jobs: &[Job], args: &[String]) -> ! {
     for j in from..jobs.len() {
         CUR_JOB.store(j as u64, Ordering::Relaxed);
         emit(format!("BEGIN {j}"));
-        let st = run_range(&entries[jobs[j].entry], &jobs[j].space, 0, jobs[j].space.len());
+        let t0 = Instant::now();
+        let mut st = run_range(&entries[jobs[j].entry], &jobs[j].space, 0, jobs[j].space.len());
+        st.wall_ms = t0.elapsed().as_millis() as u64;
         emit(format!("END {j} {}", st.to_json()));
     }
     emit("DONE".to_string());
@@ -549,9 +563,10 @@ pub fn parent_sweep(tier: &str, jobs: &[Job], deadline: Duration) -> SweepResult
 
 /// Greedy delta-debugging: drop chunks, then single bytes, then zero bytes, while the same
 /// panic site (file, line, column, message class) keeps firing.
-pub fn shrink_panic(e: &Entry, input: &[u8], key: &PanicKey, budget: Duration) -> Vec<u8> {
-    let t0 = Instant::now();
+pub fn shrink_panic(e: &Entry, input: &[u8], key: &PanicKey, max_evals: u64) -> Vec<u8> {
+    let evals = std::cell::Cell::new(0u64);
     let same = |inp: &[u8]| -> bool {
+        evals.set(evals.get() + 1);
         let m = oracle::measure(e.run, inp);
         match &m.panic {
             Some(p) => p.file == key.0 && p.line == key.1 && p.col == key.2 && p.msg_class == key.3,
@@ -567,7 +582,7 @@ pub fn shrink_panic(e: &Entry, input: &[u8], key: &PanicKey, budget: Duration) -
         let mut pos = cur.len();
         let mut progress = false;
         while pos > 0 {
-            if t0.elapsed() > budget {
+            if evals.get() > max_evals {
                 return cur;
             }
             let a = pos.saturating_sub(chunk);
@@ -588,7 +603,7 @@ pub fn shrink_panic(e: &Entry, input: &[u8], key: &PanicKey, budget: Duration) -
     }
     if !e.text {
         for i in 0..cur.len() {
-            if t0.elapsed() > budget {
+            if evals.get() > max_evals {
                 break;
             }
             if cur[i] != 0 {
@@ -598,6 +613,38 @@ pub fn shrink_panic(e: &Entry, input: &[u8], key: &PanicKey, budget: Duration) -
                     cur[i] = old;
                 }
             }
+        }
+    }
+    cur
+}
+
+/// Greedy chunk removal while `still` holds (used for allocation / time excesses).
+pub fn shrink_while(input: &[u8], max_evals: u64, mut still: impl FnMut(&[u8]) -> bool) -> Vec<u8> {
+    let mut evals = 0u64;
+    let mut cur = input.to_vec();
+    let mut chunk = (cur.len() / 2).max(1);
+    loop {
+        let mut pos = cur.len();
+        let mut progress = false;
+        while pos > 0 {
+            evals += 1;
+            if evals > max_evals {
+                return cur;
+            }
+            let a = pos.saturating_sub(chunk);
+            let mut cand = cur[..a].to_vec();
+            cand.extend_from_slice(&cur[pos..]);
+            if still(&cand) {
+                cur = cand;
+                progress = true;
+            }
+            pos = a.min(cur.len());
+        }
+        if !progress {
+            if chunk == 1 {
+                break;
+            }
+            chunk = (chunk / 2).max(1);
         }
     }
     cur
